@@ -48,3 +48,19 @@ pub enum Error {
     Other,
 }
 pub type Result<T> = std::result::Result<T, Error>;
+
+// `regions.index_to_region().iter().flatten().map(|r| (r.meta().start(), r.clone())).collect::<BTreeMap<_, _>>()`:
+// every live region filed under its metadata start (later slots win on equal starts, as in BTreeMap::collect)
+#[verifier::external_body] pub struct Regions { _p: core::marker::PhantomData<usize> }
+impl Regions { pub uninterp spec fn by_start(&self) -> Map<usize, Region>; }
+#[verifier::external_body]
+pub fn collect_regions_by_start(regions: &Regions) -> (m: std::collections::BTreeMap<usize, Region>)
+    ensures m@ == regions.by_start(), forall|s: usize| #[trigger] m@.contains_key(s) ==> m@[s].m_start() == s
+{ unimplemented!() }
+// the keys of a BTreeMap in iteration (ascending) order
+#[verifier::external_body]
+pub fn btree_keys_sorted<V>(m: &std::collections::BTreeMap<usize, V>) -> (k: Vec<usize>)
+    ensures forall|i: int, j: int| 0 <= i < j < k@.len() ==> k@[i] < k@[j],
+            forall|i: int| 0 <= i < k@.len() ==> m@.contains_key(#[trigger] k@[i]),
+            forall|s: usize| m@.contains_key(s) ==> k@.contains(s),
+{ unimplemented!() }
